@@ -1,13 +1,13 @@
 (* C10 - generated foreign types describe the actual wire format.  Statements only.
 
-   [Registry_kvapp], [Registry_zoo], [Registry_protocol] are regenerated on every check from the
+   [Registry_kvapp], [Registry_zoo], [Registry_malapp], [Registry_protocol] are regenerated on every check from the
    registry the real `crux_core::typegen::TypeGen` traces (coq/Gen/, harness/src/bin/wire_registry.rs);
    [encode]/[decode] are the schema-directed model of the Bridge's bincode configuration
    (coq/Wire/Codec.v).  That Rust's derived Serialize/Deserialize impls agree with [encode]/[decode]
    on the traced schema is the correspondence part of the check (engines/wire_eng.py). *)
 From Coq Require Import String List ZArith NArith Bool.
 From Crux Require Import Wire.Codec Wire.CodecProofs Wire.Cases Wire.CasesProofs.
-From Crux Require Import Gen.Registry_kvapp Gen.Registry_zoo Gen.Registry_protocol.
+From Crux Require Import Gen.Registry_kvapp Gen.Registry_zoo Gen.Registry_malapp Gen.Registry_protocol.
 Import ListNotations.
 Local Open Scope string_scope.
 Local Open Scope list_scope.
@@ -39,6 +39,8 @@ Proof. exact decode_prefix_free. Qed.
 Theorem C10_wf_kvapp : wf_registry Registry_kvapp = true.
 Proof. vm_compute. reflexivity. Qed.
 Theorem C10_wf_zoo : wf_registry Registry_zoo = true.
+Proof. vm_compute. reflexivity. Qed.
+Theorem C10_wf_malapp : wf_registry Registry_malapp = true.
 Proof. vm_compute. reflexivity. Qed.
 Theorem C10_wf_protocol : wf_registry Registry_protocol = true.
 Proof. vm_compute. reflexivity. Qed.
